@@ -59,7 +59,7 @@ fn for_instances(cx: &Cx, rep: &mut Report, run: &RoleRun, n: usize, mut f: impl
     for p in &run.paths {
         if shape_path(&p.cond) { continue; }
         if let Outcome::Ok(v) = &p.outcome {
-            let inst = cache.get(v, n);
+            let inst = cache.get_sized(v, n, &[], &sizes(&p.cond));
             match &*inst {
                 Err(e) => rep.fail("TP-parse", &run.label(), "parse", e, &run.site(), json!({"path": cond_str(&p.cond)})),
                 Ok(i) => {
@@ -143,12 +143,13 @@ pub fn c07(cx: &Cx) -> i32 {
             let ims = find_impls(&inst.file);
             let Some(im) = ims.iter().find(|im| ends(&trait_path(im), "clone::Clone")) else { rep.fail("TP-clone-enum", &label, "no-impl", "no Clone impl generated", &site, json!({})); return };
             let mut sem = Sem::new();
+            let nv = sizes(&p.cond).get("variants").copied().unwrap_or(2);
             if let Some(m) = method(im, "clone") {
                 let body = sem.method(m);
                 let mut ok = false;
                 let mut why = String::new();
                 if let Tm::Match(sc, arms) = &body {
-                    ok = **sc == Tm::SelfVal && arms.len() == 2;
+                    ok = **sc == Tm::SelfVal && arms.len() == nv;
                     for (vi, (pt, b)) in arms.iter().enumerate() {
                         let v = vi + 1;
                         let pv = match pt { Pt::Struct(n, ..) | Pt::TupleStruct(n, ..) | Pt::Path(n) => variant_of_path(inst, n), _ => None };
@@ -175,9 +176,9 @@ pub fn c07(cx: &Cx) -> i32 {
                 let mut ok = false;
                 let mut why = String::new();
                 if let Tm::Match(sc, arms) = &body {
-                    ok = matches!(&**sc, Tm::Tuple(v) if v.len() == 2 && v[0] == Tm::SelfVal && v[1] == Tm::Param(1)) && arms.len() == 3;
+                    ok = matches!(&**sc, Tm::Tuple(v) if v.len() == 2 && v[0] == Tm::SelfVal && v[1] == Tm::Param(1)) && arms.len() == nv + 1;
                     if !ok { why = "scrutinee is not (self, source) or arm count".into(); }
-                    for (vi, (pt, b)) in arms.iter().enumerate().take(2) {
+                    for (vi, (pt, b)) in arms.iter().enumerate().take(nv) {
                         let v = vi + 1;
                         let same = match pt { Pt::Tuple(ps) if ps.len() == 2 => ps.iter().all(|q| match q { Pt::Struct(n, ..) | Pt::TupleStruct(n, ..) | Pt::Path(n) => variant_of_path(inst, n) == Some(v), _ => false }), _ => false };
                         if !same { ok = false; why = format!("arm {v} does not pair variant {v} with itself"); }
@@ -196,7 +197,7 @@ pub fn c07(cx: &Cx) -> i32 {
                         if has_clone { ok = false; why = "a same-variant arm calls `clone`".into(); }
                     }
                     // catch-all: *self = Clone::clone(source)
-                    if let Some((pt, b)) = arms.get(2) {
+                    if let Some((pt, b)) = arms.get(nv) {
                         let pat_ok = matches!(pt, Pt::Tuple(ps) if ps.len() == 2 && ps.iter().all(|q| matches!(q, Pt::Bind(_))));
                         let body_ok = match b { Tm::Assign(l, r) => (**l == Tm::SelfVal || **l == Tm::Deref(Box::new(Tm::SelfVal))) && matches!(clone_call(r, "clone"), Some((_, ref a)) if a.len() == 1 && a[0] == Tm::Param(1)), _ => false };
                         if !(pat_ok && body_ok) { ok = false; why = format!("the catch-all arm does not replace `*self` by a clone of the source: {:?} => {}", pt, b.show()); }
@@ -371,9 +372,10 @@ pub fn c10(cx: &Cx) -> i32 {
     let mut rep = cx.report("C10");
     for kind in ["struct", "enum"] {
         let Some(r) = role(cx, kind, "Debug") else { rep.fail("roles", kind, "Debug", "role not found", "-", json!({})); continue };
-        let mode = if kind == "struct" { CollMode::Unrolled(2) } else { CollMode::InnerUnrolled(2) };
+        for nf in [0usize, 1, 2] {
+        let mode = if kind == "struct" { CollMode::Unrolled(nf) } else { CollMode::InnerUnrolled(nf) };
         let run = run(&cx.ix, r, None, mode, &[]);
-        let (label, site) = (run.label(), run.site());
+        let (label, site) = (format!("{}[{nf} fields]", run.label()), run.site());
         rep.unanalysable(&label, &run.unsupported);
         let mut cache = InstCache::default();
         let mut roots: BTreeMap<String, crate::eval::Ty> = BTreeMap::new();
@@ -386,8 +388,8 @@ pub fn c10(cx: &Cx) -> i32 {
         let mut n_err = 0;
         for p in &run.paths {
             if shape_path(&p.cond) { continue; }
-            let tr: Vec<bool> = (1..=2).map(|k| cl.atom(&p.cond, &fprefix(k), "HelperAttributeForDebug", "transparent") == Some(true)).collect();
-            let ig: Vec<bool> = (1..=2).map(|k| cl.atom(&p.cond, &fprefix(k), "HelperAttributeForDebug", "ignore") == Some(true)).collect();
+            let tr: Vec<bool> = (1..=nf).map(|k| cl.atom(&p.cond, &fprefix(k), "HelperAttributeForDebug", "transparent") == Some(true)).collect();
+            let ig: Vec<bool> = (1..=nf).map(|k| cl.atom(&p.cond, &fprefix(k), "HelperAttributeForDebug", "ignore") == Some(true)).collect();
             let ntr = tr.iter().filter(|x| **x).count();
             let cs = cond_str(&p.cond);
             match &p.outcome {
@@ -404,7 +406,7 @@ pub fn c10(cx: &Cx) -> i32 {
                     let body = sem.method(m);
                     let named = p.cond.iter().any(|(a, b)| *b && a.ends_with(".fields is Named"));
                     let transparent = tr.iter().position(|x| *x).map(|i| i + 1);
-                    let fields: Vec<(usize, bool)> = (1..=2).map(|k| (k, !ig[k - 1])).collect();
+                    let fields: Vec<(usize, bool)> = (1..=nf).map(|k| (k, !ig[k - 1])).collect();
                     if kind == "struct" {
                         check_debug_chain(&mut rep, inst, &label, &site, &cs, &body, named, &|s| is_item_path(inst, s), &fields, transparent, None, false);
                     } else if let Tm::Match(sc, arms) = &body {
@@ -421,9 +423,10 @@ pub fn c10(cx: &Cx) -> i32 {
                 _ => {}
             }
         }
-        rep.analysed.insert(format!("{kind} Debug paths ok/err"), json!([n_ok, n_err]));
-        rep.floor(&format!("{kind} Debug successful paths"), n_ok, 50);
-        rep.floor(&format!("{kind} Debug refused paths (two transparent fields)"), n_err, 1);
+        rep.analysed.insert(format!("{kind} Debug [{nf} fields] paths ok/err"), json!([n_ok, n_err]));
+        rep.floor(&format!("{kind} Debug [{nf} fields] successful paths"), n_ok, if nf == 2 { 50 } else { 2 });
+        if nf == 2 { rep.floor(&format!("{kind} Debug refused paths (two transparent fields)"), n_err, 1); }
+        }
     }
     rep.assumptions = vec!["core::fmt's DebugStruct/DebugTuple builders produce what the standard derive produces for the same calls (trusted)".into(), "names are printed through stringify!(ident) (raw identifiers keep `r#`, see C12 known finding)".into()];
     rep.finish("other", "static analysis: with two schematic fields unrolled (all ignore/transparent combinations), the Debug body must be the formatter-parameter builder chain debug_struct/debug_tuple(name).field(..).finish() over exactly the non-ignored fields in order with their own names and places, or exactly Debug::fmt(field, f) for the single transparent field; two transparent marks are refused", "rule instances = (rule, role, path)")
